@@ -95,6 +95,25 @@ theorem roundtrip_on_class_partial (G : Grammar) (ok : Lemmas.Grammar.Ok G) (okp
     ∃ r t, Ref.relative_to a b = some r ∧ Ref.resolve r b = some t ∧ key t = key a :=
   Lemmas.relative_roundtrip G ok okp oka we a b aa ab ha hb hsch haa hab hauth hpa hpb hnsp hrem
 
+/-- … so the class is disjoint from the class recorded for the open finding F12 -/
+theorem class_outside_f12 (G : Grammar) (ok : Lemmas.Grammar.Ok G) (okp : Lemmas.Grammar.OkPath G)
+    (oka : Lemmas.Grammar.OkAuth G) (we : Lemmas.Grammar.OkWE G) (a b aa ab : Text)
+    (ha : RE.Matches G.full a) (hb : RE.Matches G.full b)
+    (hsch : (split a).scheme = (split b).scheme)
+    (haa : (split a).authority = some aa) (hab : (split b).authority = some ab) (hauth : authKey aa = authKey ab)
+    (hpa : isAbs (split a).path = true) (hpb : isAbs (split b).path = true)
+    (hnsp : (((split a).query.isSome || (split a).fragment.isSome) &&
+      some (Lemmas.renderRel
+        (((Ref.dropCommon (nsegs (split a).path) (nsegs (Path.parent_or_empty (split b).path))).2.map fun _ => segDotDot) ++
+          (Ref.dropCommon (nsegs (split a).path) (nsegs (Path.parent_or_empty (split b).path))).1))
+        == Path.last (split b).path) = false)
+    (hrem : (Ref.dropCommon (nsegs (split a).path) (nsegs (Path.parent_or_empty (split b).path))).1 ≠ [] ∧
+      [] ∉ (Ref.dropCommon (nsegs (split a).path) (nsegs (Path.parent_or_empty (split b).path))).1) :
+    Findings.f12 a b = false := by
+  obtain ⟨r, t, e1, e2, hk⟩ := roundtrip_on_class_partial G ok okp oka we a b aa ab ha hb hsch haa hab hauth hpa hpb hnsp hrem
+  unfold Findings.f12
+  simp [e1, e2, hk]
+
 /-- what `relative_to` returns there -/
 theorem relative_to_on_class (G : Grammar) (ok : Lemmas.Grammar.Ok G) (okp : Lemmas.Grammar.OkPath G)
     (oka : Lemmas.Grammar.OkAuth G) (we : Lemmas.Grammar.OkWE G) (a b aa ab : Text)
